@@ -319,6 +319,9 @@ def run_shard(spec, ctx):
         d.update(kw)
         return d
 
+    JSON_KWS = [{}, {"indent": 2}, {"sort_keys": True}, {}, {"indent": 4, "sort_keys": True}, {"separators": (",", ":")}, {"sort_keys": True, "indent": None}]
+    _n_saves = [0]
+
     # ---- one conversion container -> form -> container through the wrapped real methods -----------------------
     def convert(stage, ip, tmp, tag):
         """Returns (container | None, events); events = [("post", op, problems) | ("exc", fn, exc_name, msg)]."""
@@ -332,8 +335,13 @@ def run_shard(spec, ctx):
                 out = IP.from_pytorch(ids, tensors)
             else:
                 path = os.path.join(tmp, f"ip-{tag}.{stage}")
+                # documented: extra keywords go to json.dump (layout options of the file: never a change of content)
+                _n_saves[0] += 1
+                kws = JSON_KWS[_n_saves[0] % len(JSON_KWS)] if stage == "json" else {}
+                if kws:
+                    ctx.count("json_saves_with_dump_options")
                 try:
-                    ip.save(path)
+                    ip.save(path, **kws)
                 except PostBroken as e:  # the file exists: keep going so that the harness-level comparison also runs
                     events.append(("post", e.op, e.problems))
                     if not os.path.exists(path):
